@@ -258,7 +258,7 @@ def cmd_check(prop, tier):
                 float_model=h.float_model or "n/a",
                 symbolic=h.symbolic,
                 out_of_bound=h.out_of_bound,
-                stubs=h.stubs,
+                stubs=([h.stubs] if isinstance(h.stubs, str) else list(h.stubs or [])),
                 params={k: v for k, v in P.items() if isinstance(v, (int, float, str, bool, list))},
                 functions_encoded=H.source_hashes(h),
                 paths_completed=agg["completed"],
